@@ -72,7 +72,9 @@ Record state := mkst {
 
 Inductive op :=
 | Solve (vs : list val) | SaveIter | SetFolder (f : nat) | GetResults (i : nat) | SetIter (i : nat)
-| ResultQ (i k : nat) | WriteRet (k : nat) (v : val) | SetMesh | SaveLoad (f : nat).
+| ResultQ (i k : nat) | WriteRet (k : nat) (v : val) | SetMesh | SaveLoad (f : nat)
+(* python-style negative indices -k, resolved against the CURRENT number of stored iterations *)
+| GetResultsNeg (k : nat) | SetIterNeg (k : nat) | ResultQNeg (j k : nat).
 
 Definition fit (n : nat) (vs : list val) : list val := firstn n (vs ++ repeat 0%N n).
 Definition merge (bs : list bool) (new old : list loc) : list loc :=
@@ -104,6 +106,21 @@ Definition set_iter (c : config) (i : nat) (s : state) : state :=
       mkst (fst hl) (merge (stored c) (snd hl) (live s)) m (nmesh s) (store s) (folder s) (disk s) ls (ghost s)
   end.
 
+Definition get_results (c : config) (i : nat) (s : state) : state :=
+  match read_entry c s i with
+  | None => s
+  | Some (h1, (m, ls)) => mkst h1 (live s) (mesh s) (nmesh s) (store s) (folder s) (disk s) ls (ghost s)
+  end.
+
+Definition result_q (c : config) (i k : nat) (s : state) : state :=
+  let s1 := set_iter c i s in
+  mkst (heap s1 ++ [rd (heap s1) (nth k (live s1) 0)]) (live s1) (mesh s1) (nmesh s1) (store s1)
+       (folder s1) (disk s1) [length (heap s1)] (ghost s1).
+
+(* index -k of a history of n entries is n - k when 1 <= k <= n; otherwise out of range (= n: rejected) *)
+Definition neg_idx (k : nat) (s : state) : nat :=
+  if (k =? 0) || (length (store s) <? k) then length (store s) else length (store s) - k.
+
 Definition reloc_entry (n : nat) (e : entry) : entry :=
   match e with InMem m ls => InMem m (map (fun l => l + n) ls) | OnDisk p => OnDisk p end.
 
@@ -130,16 +147,12 @@ Definition step (c : config) (o : op) (s : state) : state :=
         mkst (heap s) (live s) (mesh s) (nmesh s) (store s ++ [OnDisk (folder s, length (store s))])
              (folder s) (((folder s, length (store s)), g) :: disk s) (handed s) (ghost s ++ [g])
   | SetFolder f => mkst (heap s) (live s) (mesh s) (nmesh s) (store s) f (disk s) (handed s) (ghost s)
-  | GetResults i =>
-      match read_entry c s i with
-      | None => s
-      | Some (h1, (m, ls)) => mkst h1 (live s) (mesh s) (nmesh s) (store s) (folder s) (disk s) ls (ghost s)
-      end
+  | GetResults i => get_results c i s
   | SetIter i => set_iter c i s
-  | ResultQ i k =>
-      let s1 := set_iter c i s in
-      mkst (heap s1 ++ [rd (heap s1) (nth k (live s1) 0)]) (live s1) (mesh s1) (nmesh s1) (store s1)
-           (folder s1) (disk s1) [length (heap s1)] (ghost s1)
+  | ResultQ i k => result_q c i k s
+  | GetResultsNeg k => get_results c (neg_idx k s) s
+  | SetIterNeg k => set_iter c (neg_idx k s) s
+  | ResultQNeg j k => result_q c (neg_idx j s) k s
   | WriteRet k v =>
       match nth_error (handed s) k with
       | None => s
@@ -431,7 +444,7 @@ Qed.
 
 Lemma inv_getresults : forall c s i, cfg_ok c -> inv c s -> inv c (step c (GetResults i) s).
 Proof.
-  intros c s i OK I. simpl.
+  intros c s i OK I. simpl. unfold get_results.
   destruct (nth_error (store s) i) as [e|] eqn:He.
   2:{ rewrite read_entry_none; auto. }
   destruct (ghost_of_store I He) as [g Hg].
@@ -500,7 +513,7 @@ Qed.
 
 Lemma inv_resultq : forall c s i k, cfg_ok c -> inv c s -> inv c (step c (ResultQ i k) s).
 Proof.
-  intros c s i k OK I. simpl. pose proof (inv_setiter i OK I) as J. set (s1 := set_iter c i s) in *.
+  intros c s i k OK I. simpl. unfold result_q. pose proof (inv_setiter i OK I) as J. set (s1 := set_iter c i s) in *.
   constructor; simpl.
   - eapply Forall_lt_mono; [|apply (i_live J)]. rewrite app_length; lia.
   - apply (i_nlive J).
@@ -572,6 +585,9 @@ Proof.
   - destruct W as [D|W]; [apply inv_write; auto|discriminate].
   - apply inv_setmesh; auto.
   - apply inv_saveload; auto.
+  - apply (inv_getresults (neg_idx k s) OK I).
+  - apply (inv_setiter (neg_idx k s) OK I).
+  - apply (inv_resultq (neg_idx j s) k OK I).
 Qed.
 
 Theorem inv_run : forall c ops s, cfg_ok c -> (deep_read c = true \/ no_writes ops = true) ->
@@ -647,7 +663,7 @@ Theorem result_exact : forall c ops i k, cfg_ok c -> (deep_read c = true \/ no_w
     = [nth k (snd g) 0%N].
 Proof.
   intros c ops i k OK W Hi Hk. destruct (restore_exact ops OK W Hi) as (g & Hg & _ & Hm).
-  exists g. split; auto. simpl. set (s1 := set_iter c i (run c ops (init c))) in *.
+  exists g. split; auto. simpl. unfold result_q. simpl. set (s1 := set_iter c i (run c ops (init c))) in *.
   unfold rd at 1. rewrite app_nth2 by lia. rewrite Nat.sub_diag. simpl. f_equal.
   apply (@mask_nth val (stored c) (vals s1) (snd g) k 0%N) in Hm; auto. rewrite <- Hm. unfold vals.
   destruct (Nat.lt_ge_cases k (length (live s1))) as [L|L].
@@ -664,7 +680,7 @@ Theorem get_results_pure : forall c s i,
   live s' = live s /\ mesh s' = mesh s /\ nmesh s' = nmesh s /\ store s' = store s /\
   folder s' = folder s /\ disk s' = disk s /\ ghost s' = ghost s /\ exists ext, heap s' = heap s ++ ext.
 Proof.
-  intros c s i. simpl. unfold read_entry.
+  intros c s i. simpl. unfold get_results, read_entry.
   destruct (nth_error (store s) i) as [[m ls|p]|]; simpl.
   - destruct (deep_read c); simpl; repeat split; auto; eexists; try reflexivity. symmetry; apply app_nil_r.
   - destruct (lookup _ (disk s)); simpl; repeat split; auto; eexists; try reflexivity. symmetry; apply app_nil_r.
@@ -817,3 +833,37 @@ Print Assumptions no_alias_backward_disk.
 Print Assumptions alias_trace.
 Print Assumptions folder_pinning.
 Print Assumptions save_load_roundtrip.
+
+(* ---------------------------------------------------------------- negative indices *)
+Lemma neg_idx_spec : forall k s, 1 <= k <= length (store s) -> neg_idx k s = length (store s) - k.
+Proof.
+  intros k s [H1 H2]. unfold neg_idx.
+  destruct (k =? 0) eqn:E; [apply Nat.eqb_eq in E; lia|].
+  destruct (length (store s) <? k) eqn:F; [apply Nat.ltb_lt in F; lia|]. reflexivity.
+Qed.
+
+(* index -k IS index n-k of the history as it is NOW (n = current number of stored iterations) *)
+Theorem neg_ops_resolve_now : forall c s k f, 1 <= k <= length (store s) ->
+  step c (GetResultsNeg k) s = step c (GetResults (length (store s) - k)) s /\
+  step c (SetIterNeg k) s = step c (SetIter (length (store s) - k)) s /\
+  step c (ResultQNeg k f) s = step c (ResultQ (length (store s) - k) f) s.
+Proof. intros c s k f H. simpl. rewrite (@neg_idx_spec k s H). auto. Qed.
+
+(* Set_Iter() / Set_Iter(-1) right after a Save_Iter restores what was just saved *)
+Theorem restore_exact_neg : forall c ops k, cfg_ok c -> (deep_read c = true \/ no_writes ops = true) ->
+  1 <= k <= length (store (reach c ops)) ->
+  exists g, nth_error (ghost (reach c ops)) (length (store (reach c ops)) - k) = Some g /\
+    mesh (step c (SetIterNeg k) (reach c ops)) = fst g /\
+    mask (stored c) (vals (step c (SetIterNeg k) (reach c ops))) = mask (stored c) (snd g).
+Proof.
+  intros c ops k OK W H. destruct (neg_ops_resolve_now c (reach c ops) 0 H) as (_ & E & _). rewrite E.
+  apply restore_exact; auto. unfold reach in *. lia.
+Qed.
+
+Example restore_exact_neg_nonvacuous :
+  let c := cfg_demo false in
+  vals (reach c [SetFolder 1; Solve [5;6]; SaveIter; SetIterNeg 1; Solve [7;8]; SaveIter; SetIterNeg 1]%N) = [7;8]%N /\
+  vals (reach c [SetFolder 1; Solve [5;6]; SaveIter; SetIterNeg 1; Solve [7;8]; SaveIter; SetIterNeg 2]%N) = [5;6]%N.
+Proof. vm_compute. split; reflexivity. Qed.
+Print Assumptions neg_ops_resolve_now.
+Print Assumptions restore_exact_neg.
